@@ -521,6 +521,28 @@ func (g *gen) genDupDecorate() (Op, bool) {
 	sortCands()
 	cd := cands[g.pick(len(cands), "dd")]
 	f := g.newFn()
+	if g.pct(25, "ddtwice") {
+		// one decorator that returns the same (so far undecorated) key twice
+		singles, _ := g.keysFrom(cd.s, false)
+		var free []MKey
+		for _, k := range singles {
+			if _, taken := g.m.Scopes[cd.s].Decos[k]; !taken {
+				free = append(free, k)
+			}
+		}
+		if len(free) > 0 {
+			k := free[g.pick(len(free), "ddtk")]
+			l := rleaf{key: k}
+			if isIface(k.T) {
+				l.impl = Impls[k.T][0]
+			}
+			f.R = g.encodeResults([]rleaf{l, l}, false)
+			if g.pct(60, "ddtself") {
+				f.P = g.encodeParams([]pleaf{{key: k}})
+			}
+			return Op{K: OpDecorate, S: cd.s, F: f}, true
+		}
+	}
 	var rl []rleaf
 	singles, _ := g.keysFrom(cd.s, false)
 	nfresh := g.pick(3, "ddn")
